@@ -1,2 +1,129 @@
-import Pakhi.Model.Interp
-import Pakhi.Model.Parser
+/-
+  C08 — every collection reclaims all unreachable containers; heap stays bounded.
+-/
+import Pakhi.Lemmas.Collect
+
+namespace Pakhi
+namespace C08
+
+/-- after a collection every unreachable list / record is empty and on its free list; free lists
+    stay duplicate-free and the allocation counter restarts at zero -/
+theorem sweep_complete (scopes : List Scope) (h h' : Heap) (hc : collect scopes h = .ok h') :
+    (∀ i, i < h.lists.length → ¬ Reach h (rootVals scopes) (.list i) → h'.lists[i]? = some [] ∧ i ∈ h'.freeLists) ∧
+    (∀ i, i < h.records.length → ¬ Reach h (rootVals scopes) (.record i) → h'.records[i]? = some [] ∧ i ∈ h'.freeRecords) ∧
+    (h.freeLists.Nodup → h'.freeLists.Nodup) ∧ (h.freeRecords.Nodup → h'.freeRecords.Nodup) ∧
+    (∀ j, j ∈ h.freeLists → j ∈ h'.freeLists) ∧ (∀ j, j ∈ h.freeRecords → j ∈ h'.freeRecords) ∧
+    h'.allocCount = 0 := by
+  obtain ⟨m, _, rfl, hl, hr, hex⟩ := collect_unfold scopes h h' hc
+  have sl := sweepArena_spec ([] : List Val) m.lists 0 h.lists h.freeLists
+  have sr := sweepArena_spec ([] : RecordObj) m.records 0 h.records h.freeRecords
+  obtain ⟨e1, e2, e3, e4⟩ := sweep_lists h m
+  refine ⟨?_, ?_, by simpa [e2] using sl.nodup, by simpa [e4] using sr.nodup,
+    by simpa [e2] using sl.sup, by simpa [e4] using sr.sup, rfl⟩
+  · intro i hi hnr
+    have hb : m.lists[i]? = some false := by
+      have hlt : i < m.lists.length := by omega
+      have hnm : ¬ m.lists[i]? = some true := fun hx => hnr ((hex _).mp ((isMarked_list_iff m i).mpr hx))
+      cases hv : m.lists[i]? with
+      | none => exact absurd (List.getElem?_eq_none_iff.mp hv) (by omega)
+      | some b => cases b <;> simp_all
+    have h1 := sl.emptied i hb (by simpa using hi)
+    have h2 := sl.freed i hb
+    exact ⟨by simpa [e1] using h1, by simpa [e2] using h2⟩
+  · intro i hi hnr
+    have hb : m.records[i]? = some false := by
+      have hlt : i < m.records.length := by omega
+      have hnm : ¬ m.records[i]? = some true := fun hx => hnr ((hex _).mp ((isMarked_record_iff m i).mpr hx))
+      cases hv : m.records[i]? with
+      | none => exact absurd (List.getElem?_eq_none_iff.mp hv) (by omega)
+      | some b => cases b <;> simp_all
+    have h1 := sr.emptied i hb (by simpa using hi)
+    have h2 := sr.freed i hb
+    exact ⟨by simpa [e3] using h1, by simpa [e4] using h2⟩
+
+/-- reclaimed storage is reused before the heap grows: with a non-empty free list an allocation
+    does not enlarge the arena and takes one slot off the free list -/
+theorem alloc_reuses (h : Heap) (l : List Val) (r : RecordObj) :
+    (h.freeLists ≠ [] → (h.allocList l).2.lists.length = h.lists.length ∧
+        (h.allocList l).2.freeLists.length + 1 = h.freeLists.length) ∧
+    (h.freeRecords ≠ [] → (h.allocRecord r).2.records.length = h.records.length ∧
+        (h.allocRecord r).2.freeRecords.length + 1 = h.freeRecords.length) ∧
+    (h.freeLists = [] → (h.allocList l).2.lists.length = h.lists.length + 1) ∧
+    (h.freeRecords = [] → (h.allocRecord r).2.records.length = h.records.length + 1) := by
+  refine ⟨?_, ?_, ?_, ?_⟩
+  · intro hne; cases hf : h.freeLists with
+    | nil => exact absurd hf hne
+    | cons i rest => simp [Heap.allocList, hf]
+  · intro hne; cases hf : h.freeRecords with
+    | nil => exact absurd hf hne
+    | cons i rest => simp [Heap.allocRecord, hf]
+  · intro hf; simp [Heap.allocList, hf]
+  · intro hf; simp [Heap.allocRecord, hf]
+
+/-- every allocation, of empty containers too, advances the counter that triggers collections -/
+theorem counter_progress (h : Heap) (l : List Val) (r : RecordObj) :
+    (h.allocList l).2.allocCount = h.allocCount + l.length + 1 ∧
+    (h.allocRecord r).2.allocCount = h.allocCount + r.length + 1 := by
+  constructor
+  · unfold Heap.allocList; cases h.freeLists <;> simp
+  · unfold Heap.allocRecord; cases h.freeRecords <;> simp
+
+/-- slots in use = arena size − free slots -/
+def usedLists (h : Heap) : Nat := h.lists.length - h.freeLists.length
+
+/-- one list allocation: the number of used slots grows by one and the arena grows only when no
+    free slot is left, so `len ≤ max n0 used` is an invariant -/
+theorem alloc_bound_step (h : Heap) (l : List Val) (n0 : Nat)
+    (hfl : h.freeLists.length ≤ h.lists.length) (hinv : h.lists.length ≤ max n0 (usedLists h)) :
+    let h' := (h.allocList l).2
+    h'.freeLists.length ≤ h'.lists.length ∧ usedLists h' = usedLists h + 1 ∧ h'.lists.length ≤ max n0 (usedLists h') := by
+  unfold usedLists at *
+  cases hf : h.freeLists with
+  | nil => simp [Heap.allocList, hf] at *; omega
+  | cons i rest => simp [Heap.allocList, hf] at *; omega
+
+/-- `heap_bounded` (lists; records are symmetric): `k` allocations after a state with `u` slots in
+    use never make the arena larger than `max (size at that state) (u + k)`, whatever the contents -/
+theorem heap_bounded (ls : List (List Val)) (h : Heap) (hfl : h.freeLists.length ≤ h.lists.length) :
+    let hk := ls.foldl (fun acc l => (acc.allocList l).2) h
+    hk.lists.length ≤ max h.lists.length (usedLists h + ls.length) := by
+  suffices key : ∀ (ls : List (List Val)) (g : Heap) (n0 : Nat), g.freeLists.length ≤ g.lists.length →
+      g.lists.length ≤ max n0 (usedLists g) →
+      (ls.foldl (fun acc l => (acc.allocList l).2) g).lists.length ≤ max n0 (usedLists g + ls.length) by
+    exact key ls h h.lists.length hfl (by omega)
+  intro ls
+  induction ls with
+  | nil => intro g n0 _ hinv; simpa using hinv
+  | cons l rest ih =>
+    intro g n0 hf hinv
+    obtain ⟨a, b, c⟩ := alloc_bound_step g l n0 hf hinv
+    have := ih (g.allocList l).2 n0 a c
+    simp only [List.foldl_cons, List.length_cons]
+    rw [b] at this
+    have e : usedLists g + 1 + rest.length = usedLists g + (rest.length + 1) := by omega
+    rw [e] at this; exact this
+
+/-- the native trigger: a collection runs at the first top-level statement boundary at which the
+    counter has reached the threshold (1000, tied to the source by `SrcFactsAgree.threshold_agree`) -/
+theorem native_trigger (k : Nat) (h : Heap) : GcMode.native.fires k h = true ↔ h.allocCount ≥ 1000 := by
+  simp [GcMode.fires, gcThreshold]
+
+/-- right after a collection the slots in use are exactly the reachable ones, provided the free list
+    held no reachable slot, no duplicates and only arena slots before (the `FreeUnref` invariant) -/
+theorem used_after_collect_le (scopes : List Scope) (h h' : Heap) (hc : collect scopes h = .ok h')
+    (i : Nat) (hi : i < h'.lists.length) (hnf : i ∉ h'.freeLists) : Reach h (rootVals scopes) (.list i) := by
+  have hlen := (C07_aux scopes h h' hc)
+  by_cases hr : Reach h (rootVals scopes) (.list i)
+  · exact hr
+  · have := ((sweep_complete scopes h h' hc).1 i (by omega) hr).2
+    exact absurd this hnf
+where
+  C07_aux (scopes : List Scope) (h h' : Heap) (hc : collect scopes h = .ok h') : h'.lists.length = h.lists.length := by
+    obtain ⟨m, _, rfl, _, _, _⟩ := collect_unfold scopes h h' hc
+    have sl := sweepArena_spec ([] : List Val) m.lists 0 h.lists h.freeLists
+    simp [(sweep_lists h m).1, sl.len]
+
+example : usedLists { lists := [[], [.nil], []], freeLists := [2, 0], records := [], freeRecords := [], allocCount := 0 } = 1 := by decide
+
+end C08
+end Pakhi
